@@ -519,7 +519,7 @@ def layout (ss0 : List Stmt) : Outcome (SymTab × List Stmt) :=
 
 /-- the rest of `back`: `fix_addresses`, the final symbol table, origin and name -/
 def finish (t : SymTab) (ss4 : List Stmt) : Outcome Assembly :=
-  match fixAll ss4 0 ss4 with
+  match fixAllL t ss4 with
   | .ok ss5 =>
     match evalSyms ss5 t t with
     | .ok t1 =>
